@@ -440,6 +440,16 @@ class ExprCanon(ast.NodeTransformer):
     def visit_Call(self, node):
         self.generic_visit(node)
         f0 = node.func
+        # operator.itemgetter(k)(x) is x[k]; attrgetter('a')(x) is x.a; methodcaller('m', *a)(x) is x.m(*a)
+        if isinstance(f0, ast.Call) and len(node.args) == 1 and not node.keywords and not f0.keywords and not isinstance(node.args[0], ast.Starred):
+            g0 = f0.func
+            gname = g0.id if isinstance(g0, ast.Name) else (g0.attr if isinstance(g0, ast.Attribute) and isinstance(g0.value, ast.Name) and g0.value.id == "operator" else None)
+            if gname == "itemgetter" and len(f0.args) == 1 and not isinstance(f0.args[0], ast.Starred):
+                return _loc(ast.Subscript(value=node.args[0], slice=f0.args[0], ctx=ast.Load()), node)
+            if gname == "attrgetter" and len(f0.args) == 1 and isinstance(f0.args[0], ast.Constant) and isinstance(f0.args[0].value, str) and f0.args[0].value.isidentifier():
+                return _loc(ast.Attribute(value=node.args[0], attr=f0.args[0].value, ctx=ast.Load()), node)
+            if gname == "methodcaller" and f0.args and isinstance(f0.args[0], ast.Constant) and isinstance(f0.args[0].value, str) and f0.args[0].value.isidentifier():
+                return _loc(ast.Call(func=_loc(ast.Attribute(value=node.args[0], attr=f0.args[0].value, ctx=ast.Load()), node), args=list(f0.args[1:]), keywords=[]), node)
         # typing.cast(T, e) is e
         if len(node.args) == 2 and not node.keywords and ((isinstance(f0, ast.Name) and f0.id in _CAST_NAMES[0]) or (isinstance(f0, ast.Attribute) and f0.attr == "cast" and isinstance(f0.value, ast.Name) and f0.value.id in _CAST_NAMES[1])):
             return node.args[1]
@@ -453,7 +463,7 @@ class ExprCanon(ast.NodeTransformer):
                     flat_args.append(x)
             node.args = flat_args
         # map(f, X) -> (f(_m) for _m in X)   (one iterable, f a plain name / attribute)
-        if isinstance(f0, ast.Name) and f0.id == "map" and len(node.args) == 2 and not node.keywords and isinstance(node.args[0], (ast.Name, ast.Attribute)):
+        if isinstance(f0, ast.Name) and f0.id == "map" and len(node.args) == 2 and not node.keywords and (isinstance(node.args[0], (ast.Name, ast.Attribute, ast.Lambda)) or (isinstance(node.args[0], ast.Call) and ast.unparse(node.args[0].func).split(".")[-1] in ("itemgetter", "attrgetter", "methodcaller", "partial") and not any(isinstance(x, (ast.Call, ast.NamedExpr)) for a_ in node.args[0].args for x in ast.walk(a_)))):
             var = "_m"
             call = _loc(ast.Call(func=node.args[0], args=[_loc(ast.Name(id=var, ctx=ast.Load()), node)], keywords=[]), node)
             gen = ast.comprehension(target=_loc(ast.Name(id=var, ctx=ast.Store()), node), iter=node.args[1], ifs=[], is_async=0)
